@@ -25,8 +25,8 @@ RULE = ("terminal sets giving 1-3 cyclic datagrams (FMMU in, FMMU out, "
         "(configuration, choices)")
 
 IN, OUT = SyncManager.IN, SyncManager.OUT
-PATTERNS = [bytes(8), b"\xff" * 8, bytes([0x11, 0x22, 0x33, 0x44, 0x55, 0x66,
-                                          0x77, 0x88])]
+PATTERNS = [bytes([0x11, 0x22, 0x33, 0x44, 0x55, 0x66, 0x77, 0x88]),
+            b"\xff" * 8, bytes(8)]
 CONFIGS = {
     "fmmu-in": [(4, 0, True, False)],
     "fmmu-inout": [(4, 6, True, True)],
@@ -103,8 +103,8 @@ def execute(ch, cname):
                 # the frame passes the terminals right after it is sent:
                 # inputs are latched and outputs applied now; only its way
                 # back may be slow
-                pat = PATTERNS[ch.choose(len(PATTERNS), "inputs",
-                                         [0] * len(PATTERNS))]
+                npat = execute.npatterns
+                pat = PATTERNS[ch.choose(npat, "inputs", [0] * npat)]
                 for t in terms:
                     n = t.pdo_in_sz
                     t.model.mem[ecworld.IN_OFF:ecworld.IN_OFF + n] = pat[:n]
@@ -181,6 +181,9 @@ def execute(ch, cname):
         root.setLevel(oldlevel)
         w.close()
     return obs
+
+
+execute.npatterns = 3
 
 
 def judge(cname, ch, obs, res):
@@ -261,6 +264,8 @@ def work(item, res):
 
 def run(ctx):
     bound = 2 if ctx.quick else 3
+    # quick: two of the three input patterns per cycle (non-zero first)
+    execute.npatterns = 2 if ctx.quick else 3
     items = [(c, bound, 60000 if ctx.quick else 600000) for c in CONFIGS]
     res = core.pmap(ctx, work, items, chunk=1)
     res.cov["states"] = len(res.nontrivial)
